@@ -6,7 +6,7 @@
    (open finding; the two [..._refuted] theorems are the witnesses). *)
 From Coq Require Import List Bool Ascii String ZArith.
 From FM Require Import Base.Result Base.Str Base.AstOp Model.Ast Model.FM Model.Ctc Model.Queries Model.Sem
-     Model.PyRt Model.Loc Gen.Src_fm Proofs.C18Facts Proofs.SrcCtcFacts Proofs.SrcTieC18.
+     Model.PyRt Model.Loc Gen.Src_fm Proofs.C18Facts Proofs.SrcCtcFacts Proofs.SrcSplitFacts Proofs.SrcTieC18.
 Import ListNotations.
 Local Open Scope list_scope.
 
@@ -144,6 +144,38 @@ Theorem C18_source_features : forall c fuel, (fuel_node (c_ast c) <= fuel)%nat -
             forall s, In s l <-> (In s (leaf_names (c_ast c)) /\ starts_with_char "'"%char s = false).
 Proof. exact source_features. Qed.
 Print Assumptions C18_source_features.
+
+(* split_constraint and the pseudo- / strict-complex reports of the translated source: the fuel the intermediate
+   formulas need is not a simple function of the input, so "for every large enough fuel" *)
+Theorem C18_source_split_is_model : forall c, exists n0, forall fuel, (n0 <= fuel)%nat ->
+  rmap (map c_ast) (py_split_constraint fuel c) = split_asts (c_ast c).
+Proof. exact src_split_constraint. Qed.
+Print Assumptions C18_source_split_is_model.
+
+Theorem C18_source_split_partial : forall c parts, node_wf (c_ast c) = true -> no_xe (c_ast c) = true ->
+  split_asts (c_ast c) = Ok parts ->
+  exists n0, forall fuel, (n0 <= fuel)%nat ->
+    exists l, py_split_constraint fuel c = Ok l /\ map c_ast l = parts /\
+              Forall (fun p => node_wf (c_ast p) = true) l /\
+              forall σ, evalb σ (c_ast c) = forallb (evalb σ) (map c_ast l).
+Proof. exact source_split_sound. Qed.
+Print Assumptions C18_source_split_partial.
+
+Theorem C18_source_split_names : forall c fuel l, py_split_constraint fuel c = Ok l ->
+  map c_name l = map (fun i => (c_name c ++ z_to_string (Z.of_nat i))%string) (seq 0 (List.length l)).
+Proof. exact src_split_constraint_names. Qed.
+Print Assumptions C18_source_split_names.
+
+Theorem C18_source_pseudo_strict_is_model : forall c, exists n0, forall fuel, (n0 <= fuel)%nat ->
+  py_Constraint_is_pseudocomplex_constraint fuel c = is_pseudocomplex (c_ast c) /\
+  py_Constraint_is_strictcomplex_constraint fuel c = is_strictcomplex (c_ast c).
+Proof. exact source_pseudo_strict. Qed.
+Print Assumptions C18_source_pseudo_strict_is_model.
+
+Theorem C18_source_new_ctc_name : forall names prefix, exists n0, forall fuel, (n0 <= fuel)%nat ->
+  py_get_new_ctc_name fuel names prefix = Ok (get_new_ctc_name names prefix).
+Proof. exact src_get_new_ctc_name. Qed.
+Print Assumptions C18_source_new_ctc_name.
 
 Example C18_nonvacuous :
   let n := bin AND (bin IMPLIES (term "A") (term "B")) (bin OR (un NOT (term "C")) (bin EXCLUDES (term "A") (term "D"))) in
